@@ -240,8 +240,10 @@ func (c *ctx) entropy() {
 			switch se.Sel.Name {
 			case "magic":
 				name := fc.funcName(se)
-				ok := name == "generator.printMagic" || name == "generator.resetMagicTokens"
-				c.s.Check(ok, "G2", name+"|reads magic", c.pos(se), "printed inside a // comment (source-map mode) / compared against comment text to replace it", "the random token is read by a function other than the comment printer and the comment replacer")
+				if isLvalueOf2(fc, se) {
+					return true // the assignment in the constructor
+				}
+				c.s.Check(c.magicUseOK(fc, se), "G2", name+"|reads magic", c.pos(se), "printed inside a // comment (source-map mode) / compared against comment text to replace it", "the random token flows somewhere other than into a comment-only format string or a comparison with comment text: it could reach the generated code")
 			case "RandSrc":
 				c.s.Check(fc.funcName(se) == "newGenerator", "G2", fc.funcName(se)+"|uses RandSrc", c.pos(se), "", "the random source is used outside newGenerator")
 			}
@@ -400,4 +402,78 @@ func (c *ctx) ambientState() {
 func identOf(e ast.Expr) *ast.Ident {
 	id, _ := astx.Unparen(e).(*ast.Ident)
 	return id
+}
+
+// isLvalueOf2: se is the target of an assignment or a key of a composite literal.
+func isLvalueOf2(fc *fileCtx, se ast.Expr) bool {
+	switch p := fc.par[se].(type) {
+	case *ast.AssignStmt:
+		for _, l := range p.Lhs {
+			if l == se {
+				return true
+			}
+		}
+	case *ast.KeyValueExpr:
+		return p.Key == se
+	}
+	return false
+}
+
+// magicUseOK: the value read flows only into a comparison, a string predicate, or a comment-only format.
+func (c *ctx) magicUseOK(fc *fileCtx, e ast.Expr) bool {
+	info := fc.pkg.TypesInfo
+	var n ast.Node = e
+	for depth := 0; depth < 6; depth++ {
+		p := fc.par[n]
+		switch x := p.(type) {
+		case *ast.ParenExpr:
+			n = x
+			continue
+		case *ast.BinaryExpr:
+			if x.Op == token.EQL || x.Op == token.NEQ {
+				return true
+			}
+			if x.Op == token.ADD {
+				n = x
+				continue
+			}
+			return false
+		case *ast.CallExpr:
+			fn := astx.Callee(info, x)
+			full := fullName(fn)
+			switch {
+			case full == "fmt.Fprintf" || full == "fmt.Sprintf":
+				idx := 0
+				if full == "fmt.Fprintf" {
+					idx = 1
+				}
+				if len(x.Args) > idx {
+					if s, isC := constStr(fc, x.Args[idx]); isC && isCommentFormat(s) {
+						return true
+					}
+				}
+				return false
+			case strings.HasPrefix(full, "strings.") && fn != nil:
+				if sig, ok := fn.Type().(*types.Signature); ok && sig.Results().Len() == 1 {
+					if b, ok := sig.Results().At(0).Type().Underlying().(*types.Basic); ok && b.Kind() == types.Bool {
+						return true // a predicate: only a truth value leaves
+					}
+				}
+				return false
+			}
+			return false
+		case *ast.KeyValueExpr:
+			// copied into another struct field named magic (e.g. the expression printer)
+			if id, ok := x.Key.(*ast.Ident); ok && id.Name == "magic" {
+				return true
+			}
+			return false
+		case *ast.AssignStmt:
+			// magic := g.magic ; uses of the local are not followed: reject
+			return false
+		default:
+			return false
+		}
+	}
+	return false
 }
